@@ -11,6 +11,14 @@ import (
 	"time"
 )
 
+// verifHome: where the committed machinery lives (known findings, test data); verifDir: where evidence is written.
+func verifHome() string {
+	if d := os.Getenv("VERIF_HOME"); d != "" {
+		return d
+	}
+	return "/verif"
+}
+
 func verifDir() string {
 	if d := os.Getenv("VERIF_DIR"); d != "" {
 		return d
@@ -133,7 +141,7 @@ func (r *Run) Analysed(fn string) { r.Funcs[fn] = true }
 
 func loadKnown() knownFile {
 	var k knownFile
-	b, err := os.ReadFile(filepath.Join(verifDir(), "known_findings.json"))
+	b, err := os.ReadFile(filepath.Join(verifHome(), "known_findings.json"))
 	if err != nil {
 		return k
 	}
